@@ -54,6 +54,12 @@ struct Ctx
     std::set<Function*> addrTaken;
     std::set<Function*> resumable;
     std::set<Function*> skipCalls;
+    // pointer buffers: byte arrays [N x i8] (N % 8 == 0) inside the SBO storage of type-erased wrappers are emitted as arrays of N/8
+    // pointers, so that pointers stored in them keep their points-to sets in CBMC (same layout; other accesses go through casts)
+    std::vector<std::string> ptrBufOwners;                       // substrings of owner struct names (-ptrbuf)
+    std::set<std::pair<StructType*, unsigned>> ptrBuf;           // (struct, field index) whose type is such a byte array
+    void computePtrBufs();
+    bool isPtrBuf(StructType* S, unsigned k) const { return ptrBuf.count({S, k}) != 0; }
     std::vector<std::string> opaquePrefixes;    // defined functions treated as environment (formatting)
     bool isExt(const Function* F) const
     {
